@@ -69,11 +69,19 @@ BASE = ["sqlite", "postgresql", "mysql", "mssql", "oracle", "default"]
 def _frame(e):
     import traceback
 
-    for fr in reversed(traceback.extract_tb(e.__traceback__)):
-        fn = fr.filename
-        if "/sqlalchemy/" in fn and fr.name != "__getattr__":  # name the caller, not the generic attribute hook
-            mod = fn.split("/sqlalchemy/", 1)[1].rsplit(".", 1)[0].replace("/", ".")
-            return mod, fr.name, fr.lineno
+    frames = [fr for fr in traceback.extract_tb(e.__traceback__)
+              if "/sqlalchemy/" in fr.filename and fr.name != "__getattr__"]  # name the caller, not the generic attribute hook
+
+    def modof(fr):
+        return fr.filename.split("/sqlalchemy/", 1)[1].rsplit(".", 1)[0].replace("/", ".")
+
+    if frames:
+        fr = frames[-1]
+        name = fr.name
+        if (name.startswith(("format_", "quote", "_requires_quotes")) or name.startswith("<")) and len(frames) > 1:
+            # a shared identifier-preparer helper, or an anonymous lambda / comprehension: name the compiler method around it
+            name += "<" + modof(frames[-2]) + "." + frames[-2].name
+        return modof(fr), name, fr.lineno
     return "?", "?", 0
 
 
@@ -89,6 +97,7 @@ def run(ctx):
     env = G.make_env()
     ds = G.dialects(extra_variants=True)
     variants = [k for k in ds if k not in BASE]
+    paramstyle_variants = [k for k in variants if k.split("/")[-1] in ("numeric", "numeric_dollar", "qmark", "format", "pyformat", "named", "asyncpg")]
     rng = ctx.rng
     recipes = RG.recipes(env)
     ddl = RG.ddl_recipes(env)
@@ -99,6 +108,9 @@ def run(ctx):
         plans = [(dn, {}) for dn in BASE]
         for dn in rng.sample(variants, 4):
             plans.append((dn, {}))
+        if not is_ddl:   # paramstyles matter for statements: two of the numeric / positional / named variants each time
+            for dn in rng.sample(paramstyle_variants, 3):
+                plans.append((dn, {}))
         for dn in rng.sample(BASE, 3):
             plans.append((dn, {"literal_binds": True}))
         for dn in rng.sample(BASE + variants, 2):
